@@ -185,6 +185,27 @@ def run(ctx):
                                   "has to be '%s is not None'" % (par, norm(t), par), lineno=g.lineno), oid=par)
             continue
         t = gg[0].test
+        # the threshold is compared as given: converting it to the type of the data (or to an integer) truncates a fractional
+        # threshold for integer data, and the cells between the two values change sides
+        if par not in ('invalid', 'where') and len(found.args) >= 2:
+            th = found.args[1]
+            fnenv = dict((s_.targets[0].id, s_.value) for s_ in iter_stmts(fn.body) if isinstance(s_, ast.Assign) and len(s_.targets) == 1
+                         and isinstance(s_.targets[0], ast.Name))
+            narrowing = None
+            for c2 in walk_expr(th):
+                if isinstance(c2, ast.Call):
+                    ftxt = norm(fnenv.get(c2.func.id, c2.func)) if isinstance(c2.func, ast.Name) else norm(c2.func)
+                    alltxt = ftxt + ' ' + ' '.join(norm(k_.value) for k_ in c2.keywords)
+                    if 'dtype' in alltxt or ftxt.split('.')[-1] in ('astype', 'int', 'round', 'floor', 'ceil', 'trunc', 'int32', 'int64', 'int16', 'int8', 'float32', 'float16', 'rint'):
+                        narrowing = (c2, ftxt)
+            if narrowing is not None:
+                ctx.violation(Finding('R-MASKTABLE', FILES, q, st, 'the threshold %s is converted before the comparison (%s(...)): for integer data a fractional threshold is truncated, so cells '
+                                      'between the given and the converted value are masked (or kept) against the predicate' % (par, narrowing[1][:40])), oid=par)
+                continue
+            if norm(th) != par and not (isinstance(th, ast.Call) and (dotted(th.func) or '').split('.')[-1] in ('asarray', 'array', 'asanyarray') and len(th.args) == 1
+                                         and not th.keywords and norm(th.args[0]) == par):
+                ctx.undec('R-MASKTABLE', par, where, 'threshold expression %s is not the parameter itself' % norm(th)[:60])
+                continue
         ctx.ok('R-MASKTABLE', par, where, '%s -> np.ma.%s on running values under %s' % (par, mf, norm(t)))
     # ---------------- R-COORDPASS in mask()
     # path-wise over the body of the variable loop: on every path taken for a coordinate variable when coords is false, the data
@@ -507,6 +528,50 @@ def run(ctx):
     else:
         ctx.violation(Finding('R-COORDKEYS', FILES, 'PseudoNetCDFFile._copywith', cw.body[-1], 'the copy does not receive the coordinate keys of the receiver on every path: results of file arithmetic / '
                               'mask() lose them and the next operation computes on the coordinate variables'))
+    # ---------------- R-COORDDECL: coordinates declared before the variables exist are kept
+    ctx.rule('R-COORDDECL', 'setCoords: with the default of `missing`, every key is registered (readers declare coordinates before they create the variables)')
+    sc = ctx.src.mod(FILES).func('PseudoNetCDFFile.setCoords')
+    wsc = 'src/PseudoNetCDF/%s PseudoNetCDFFile.setCoords' % FILES
+    scp = [a.arg for a in sc.args.args]
+    if 'missing' not in scp or len(scp) < 2:
+        ctx.undec('R-COORDDECL', 'default', wsc, 'no parameter `missing`')
+    else:
+        dflt = sc.args.defaults[scp.index('missing') - (len(scp) - len(sc.args.defaults))] if scp.index('missing') >= len(scp) - len(sc.args.defaults) else None
+        dval = const_str(dflt) if dflt is not None else None
+        bare = 0
+        for m_ in ctx.src.all_modules():
+            if m_.relpath.startswith('test/'):
+                continue
+            for c in (x for f_ in m_.functions.values() for x in walk_expr(f_)):
+                if isinstance(c, ast.Call) and isinstance(c.func, ast.Attribute) and c.func.attr == 'setCoords' and len(c.args) == 1 and kw(c, 'missing') is None \
+                        and isinstance(c.func.value, ast.Name):
+                    bare += 1
+        from .. import paths as _paths2
+        verdict = None
+        if dval is None:
+            ctx.undec('R-COORDDECL', 'default', wsc, 'default of `missing` is not a string literal')
+        else:
+            from .. import consteval as _ce
+            for pth in _paths2.enumerate_paths(sc.body, limit=2000):
+                feasible = True
+                for test, pol in pth.conds:
+                    if 'missing' in _names(test):
+                        got = _ce.ev(test, {'missing': dval})
+                        if got is not _ce.UNK and bool(got) != pol:
+                            feasible = False
+                if not feasible:
+                    continue
+                rebinds = [st for st in pth.stmts if isinstance(st, ast.Assign) and any(isinstance(t, ast.Name) and t.id == scp[1] for t in st.targets)]
+                if pth.exit[0] == 'raise':
+                    verdict = verdict or ('raises', pth.stmts[-1] if pth.stmts else sc.body[0])
+                elif rebinds:
+                    verdict = verdict or ('filters the keys (%s)' % norm(rebinds[0])[:60], rebinds[0])
+            if verdict:
+                ctx.violation(Finding('R-COORDDECL', FILES, 'PseudoNetCDFFile.setCoords', 'def setCoords(%s, missing=%r)' % (', '.join(scp[:-1]), dval),
+                                      "with the default missing=%r setCoords %s: the %d calls that declare coordinates before the variables are created register nothing, so file "
+                                      'arithmetic computes on the coordinate variables and mask() masks them' % (dval, verdict[0], bare), lineno=sc.lineno))
+            else:
+                ctx.ok('R-COORDDECL', 'default', wsc, 'missing=%r keeps every key; %d calls rely on the default' % (dval, bare))
     # ---------------- R-MASKDEFPARSE: the string form 'type,arg[,arg]' keeps every argument (finite case analysis of the parse)
     from .. import consteval as _cev
     ctx.rule('R-MASKDEFPARSE', "mask_vals: 'type,a,b' is split into the type and the complete argument text 'a,b'")
